@@ -225,7 +225,9 @@ def process_level(ctx, mod, demod):
         cfgs.append((src, dst, i % 16, (i // 2) % 2 == 1, i % 2 == 1, kinds[i % 3], 20 + (i % 5 if thorough else 0), r.next()))
     # one probe outside valid_call: a callsign with an embedded space (known finding callsign-embedded-space)
     probe = ("AB CD", None, 5, False, False, "tone", 20, r.next())
-    allcfgs = cfgs + [probe]
+    # fixed replay of the recorded finding no-acquisition-on-silent-audio (found by the thorough tier, seed 20260930)
+    probe2 = ("9", "SEF0QWKB", 4, False, False, "silence", 20, 1)
+    allcfgs = cfgs + [probe, probe2]
     expected = spec_lines(ctx, [(c[0], c[1], c[2], bytes(14)) for c in cfgs])
     results = []
     with cf.ThreadPoolExecutor(max_workers=14) as ex:
@@ -235,6 +237,7 @@ def process_level(ctx, mod, demod):
     for i, (cfg, res) in enumerate(results):
         src, dst, can, invert, lead, kind, seconds, seed = cfg
         is_probe = i == len(cfgs)
+        is_probe2 = i == len(cfgs) + 1
         ctx.case(("pipeline", src, dst, can, invert, lead, kind), nontrivial=res.get("out_len", 0) > 0)
         ctx.count(f"pipeline:{kind}:{'inv' if invert else 'norm'}:{'lead' if lead else 'nolead'}")
         replay = {"command": res.get("cmd"), "src": src, "dst": dst, "can": can, "invert": invert, "leading_noise": lead, "audio": kind, "seconds": seconds,
@@ -250,8 +253,18 @@ def process_level(ctx, mod, demod):
             continue
         if res["mod_rc"] != "0" or res["demod_rc"] != "0":
             ctx.violation("pipeline-exit-status", "m17-mod / m17-demod did not both exit with status 0", replay); continue
-        want = expected[i][1].strip(b"\n")
         src_lines = [l for l in err.split(b"\n") if l.startswith(b"SRC: ")]
+        if not src_lines and res["out_len"] == 0 and b"LICH" not in err:
+            # the receiver never acquired the transmission at all (no LICH, no LSF, no audio)
+            if kind == "silence":
+                ctx.violation("no-acquisition-on-silent-audio", "m17-demod never acquires a transmission of silent audio for some link parameters "
+                              "(nothing printed, nothing written; both exit 0)", replay)
+            else:
+                ctx.violation("pipeline-no-acquisition", "m17-demod never acquires the transmission (nothing printed, nothing written)", replay)
+            continue
+        if is_probe2:
+            continue
+        want = expected[i][1].strip(b"\n")
         if any(d.encode() in err for d in PACKET_DIAGS):
             ctx.violation("packet-diagnostics-for-a-voice-stream", "m17-demod prints packet-mode diagnostics for a voice stream", replay); continue
         if not src_lines or any(l != want for l in src_lines):
